@@ -53,6 +53,14 @@ def gen_cases(ctx):
                 a = [gen.rand_dyadic(rng, 2, 2) for _ in range(m)]
                 b = [gen.rand_dyadic(rng, 2, 2) for _ in range(m)]
                 cases.append((cn + "+offset", W, [x + o for x, o in zip(a, off)], [x + o for x, o in zip(b, off)]))
+    # ... and at tiny magnitudes (differences of a few 2^-40): an order relation has no absolute tolerance
+    for cones, m in ((gen.CONES_2D, 2), (gen.CONES_3D, 3)):
+        for cn, (W, _) in cones.items():
+            for _ in range(8 if ctx.quick else 100):
+                sc = Fraction(1, 2 ** rng.choice([30, 40, 48]))
+                a = [gen.rand_dyadic(rng, 2, 2) * sc for _ in range(m)]
+                b = [gen.rand_dyadic(rng, 2, 2) * sc for _ in range(m)]
+                cases.append((cn + "+tiny", W, a, b))
     return cases
 
 
